@@ -98,7 +98,9 @@ def make_backend(sess):
                 sess.backend_call(i, name, *args, **k)
                 if result is None:
                     return None
-                return result(i, args, k)
+                res = result(i, args, k)
+                i.ctx.event("backend-result", name, args, res)
+                return res
 
             return Coro(run, "backend." + name)
 
